@@ -519,6 +519,6 @@ impl Family for HostileFamily {
         2 << 20
     }
     fn watchdog_ms(&self) -> u64 {
-        120_000
+        60_000
     }
 }
